@@ -495,7 +495,7 @@ def nearest_part(job, r):
         earlier = [T0 - 86400 * k for k in rng.sample(range(1, 40), rng.randint(0 if later else 1, 2))]
         F = [(pt, w.cal.chain(T0, pt, s.root).root()) for pt in later] + [(pt, gen.rnd_imprint(rng, 1)) for pt in earlier]
         # some records carry publication references and repository URIs: what the extended signature carries is the whole record
-        deco = {t: ([['ref one', 'ref two'], [], ['r']][(i + t) % 3], [['http://repo.example/a', 'http://repo.example/b'], [], []][(i + t // 86400) % 3]) for t, h in F}
+        deco = {t: (rng.choice([['ref one', 'ref two'], [], ['r'], ['a', 'b', 'c']]), rng.choice([['http://repo.example/a', 'http://repo.example/b'], [], [], ['http://r.example/1'], ['u1', 'u2', 'u3']])) for t, h in F}
         recs = [hdr()] + [cert_rec(x) for x in (w.cert_ok, w.cert_ok2)] + [pub_rec(t, h, refs=deco[t][0], uris=deco[t][1]) for t, h in sorted(F)]
         body = MAGIC + b''.join(x.enc() for x in recs)
         pf = body + sig_rec((w.pf_foreign if variant == 'signed-by-foreign-ca' else w.pf_signer).pkcs7_detached(body, work)).enc()
@@ -556,6 +556,8 @@ def nearest_part(job, r):
                 else:
                     r.count('nearest_extensions_checked')
                     r.count('nearest_records_with_uris' if deco[target][1] else 'nearest_records_without_uris')
+                    if len(deco[target][1]) != len(deco[target][0]):
+                        r.count('nearest_records_with_more_uris_than_references' if len(deco[target][1]) > len(deco[target][0]) else 'nearest_records_with_fewer_uris_than_references')
         c('sigfree 0'); c('sigfree 1')
         c('ctxfree 0')
     pool.check_exit(None, r, sess.ex)
@@ -582,6 +584,6 @@ def run(ctx):
              + [('nearest', exe, ctx.env(), ctx.work, ctx.seed * 1000 + 950 + i, 60 if ctx.tier == 'quick' else 500, w) for i in range(4)])
     c = ctx.counters
     if not ctx.violations and not ctx.known_printed:
-        ctx.require(c.get('extended_signatures_checked', 0) >= 100 and c.get('file_extender_honest_accepted', 0) >= 500 and c.get('nearest_extensions_checked', 0) >= 20 and c.get('nearest_refused', 0) >= 20, 'honest extensions checked')
+        ctx.require(c.get('extended_signatures_checked', 0) >= 100 and c.get('file_extender_honest_accepted', 0) >= 500 and c.get('nearest_extensions_checked', 0) >= 20 and c.get('nearest_refused', 0) >= 20 and c.get('nearest_records_with_more_uris_than_references', 0) >= 5 and c.get('nearest_records_with_fewer_uris_than_references', 0) >= 5, 'honest extensions checked')
         miss = [d for d in DEVIATIONS if not c.get('outcome_%s_error' % d)]
         ctx.require(not miss, 'every deviation exercised: missing %s' % miss)
